@@ -168,7 +168,8 @@ def directed_bytes(s, e, r, tail=None):
     word = s.fix.ival | (r.getrandbits(n) & ~s.mask.ival & ((1 << n) - 1)) if n else 0
     bs = word.to_bytes((n + 7) // 8, "little")[: n // 8][::e]
     if tail is None:
-        tail = r.choice([0, 0, 1, 2, 4, 8, 11])
+        # variable-length specs get long tails now and then (hooks may consume many bytes: LEB128 …)
+        tail = r.choice([0, 0, 1, 2, 4, 8, 11, 11, 17, 24, 40] if s.size == 0 else [0, 0, 1, 2, 4, 8, 11])
     return bs + bytes(r.getrandbits(8) for _ in range(tail))
 
 
@@ -304,8 +305,14 @@ def gen_inputs(isa_obj, specs, r, n_directed, n_random, prefixes=True):
     e = -1 if isa_obj.be else 1
     out = []
     pf = [s for s in specs if s.pfx is True]
-    for _ in range(n_directed):
-        s = r.choice(specs)
+    # every spec is reached: one sample per spec (three for variable-length specs, whose hooks parse the
+    # tail: ModRM/SIB/displacement/immediate/LEB128 forms), then random picks up to n_directed
+    order = []
+    for s in specs:
+        order.extend([s] * (3 if s.size == 0 else 1))
+    while len(order) < n_directed:
+        order.append(r.choice(specs))
+    for s in order:
         bs = directed_bytes(s, e, r)
         k = r.random()
         if k < 0.15 and bs:
